@@ -55,6 +55,9 @@ structure RCfg where
   hasRedis : Bool
   maximumTtl : Int
 
+/-- AsyncStore: `ttlMs := time.Until(expireTime).Milliseconds()` read at instant `now` (Go's `/` truncates) -/
+abbrev redisTtlMs (expire now : Int) : Int := (timeUntil expire now).tdiv 1000000
+
 /-- AsyncStore: `if ttlMs <= 10 { return }` -/
 abbrev redisTtlTooShort (ttlMs : Int) : Bool := decide (ttlMs ≤ 10)
 
@@ -64,9 +67,9 @@ def rStore (clock : Nat → Nat) (cfg : RCfg) (st : RState) (k : Nat) (resp : Op
   | none => st
   | some c =>
     let mem := if cfg.hasMem then cacheStore clock ⟨true, cfg.maximumTtl⟩ st.mem k resp now delay id else st.mem
-    let expire : Int := now + c.ttl
+    let expire : Int := expireAt now c.ttl
     -- AsyncStore: ttlMs := time.Until(expireTime).Milliseconds(); if ttlMs <= 10 { return }
-    let ttlMs : Int := (expire - ((now + delay : Nat) : Int)).tdiv 1000000
+    let ttlMs : Int := redisTtlMs expire ((now + delay : Nat) : Int)
     let pending :=
       if cfg.hasRedis && !redisTtlTooShort ttlMs then
         st.pending ++ [⟨k, floorSec now, floorSec expire.toNat, c.msg, id, ttlMs, c.setNX, now + delay⟩]
